@@ -329,7 +329,7 @@ impl Prop for C05 {
         let seeds: Vec<StrCase> = std::fs::read_dir(verif_dir().join("corpus").join("C05"))
             .map(|rd| rd.filter_map(|e| e.ok()).filter_map(|e| std::fs::read_to_string(e.path()).ok()).filter_map(|t| serde_json::from_str::<Value>(&t).ok()).filter_map(|v| serde_json::from_value(v["case"].clone()).ok()).collect())
             .unwrap_or_default();
-        let c = crate::fuzzrun::Campaign { runs_per_job: 250_000, jobs: 12, timeout_s: 25, seed };
+        let c = crate::fuzzrun::Campaign { name: "C05", runs_per_job: 250_000, jobs: 12, timeout_s: 25, seed };
         match crate::fuzzrun::run(&c, &seeds) {
             Err(e) => {
                 eprintln!("harness error: fuzz campaign: {e}");
@@ -344,7 +344,12 @@ impl Prop for C05 {
                     if f.kind == "timeout" {
                         continue; // C06's business
                     }
-                    if let Verdict::Fail(fl) = check_no_panic(&f.case, ctx) {
+                    let v = check_no_panic(&f.case, ctx);
+                    if !matches!(v, Verdict::Fail(_)) {
+                        println!("note: libFuzzer artifact ({}) did not fail when re-judged through the worker: {}", f.kind, f.case.describe());
+                        ctx.obs.label(&format!("libfuzzer:artifact-not-confirmed:{}", f.kind));
+                    }
+                    if let Verdict::Fail(fl) = v {
                         out.push((format!("libfuzzer-{}", f.kind), Verdict::Fail(Failure { detail: format!("{} (found by libFuzzer, re-judged through the worker)", fl.detail), ..fl }), Some(f.case.clone())));
                         break;
                     }
